@@ -3,6 +3,7 @@ import r_skip
 import r_range
 import r_indent
 import p_c07
+import r_raw
 
 EXPLANATION = (
     "(a) on the NotInRange edge of should_format_node, format_stmt / format_last_stmt only enter the stmt_block "
@@ -28,4 +29,4 @@ def run(ctx):
     return [r_skip.rule_skip_edge(ctx, "C09", statuses=("NotInRange",)), r_skip.rule_block_path(ctx, "C09"),
             r_skip.rule_post(ctx, "C09"), r_skip.rule_eof(ctx, "C09"),
             r_skip.rule_sort_guard(ctx, "C09", must_block=("NotInRange",)),
-            r_range.rule_range(ctx, "C09"), r_indent.rule_indent(ctx, "C09"), r_skip.rule_field_walkers(ctx, "C09"), p_c07.rule_parse_input(ctx, "C09")]
+            r_range.rule_range(ctx, "C09"), r_indent.rule_indent(ctx, "C09"), r_skip.rule_field_walkers(ctx, "C09"), p_c07.rule_parse_input(ctx, "C09"), r_raw.rule_once(ctx, "C09")]
